@@ -791,7 +791,8 @@ def run_qualified(case):
 
 PROTO_PARAMS = ["{T} a", "const {T} a", "{T} *a", "const {T} *a", "{T} * const a", "const {T} * const a", "{T} &a", "const {T} &a",
                 "{T} **a +intent(in)", "const {T} **a +intent(in)", "{T} * const *a +intent(in)", "const {T} * const *a +intent(in)",
-                "volatile {T} *a", "const volatile {T} *a", "{T} * volatile a"]
+                "volatile {T} *a", "const volatile {T} *a", "{T} * volatile a",
+                "{T} a[3]", "const {T} a[4]", "const {T} a[2][3]", "{T} a[2][2]"]
 PROTO_RESULTS = ["{T}", "{T} *", "const {T} *", "{T} &", "const {T} &"]
 PROTO_MEMBERS = ["{T} m{k}", "const {T} *m{k}", "{T} *m{k}", "const {T} * const *m{k}", "{T} **m{k}", "{T} * const m{k} +readonly"]
 
@@ -811,7 +812,7 @@ def run_prototypes(case):
     for ptxt in PROTO_PARAMS:
         p = ptxt.format(T=T)
         plain = p.split(" +")[0]
-        ptype = re.sub(r"\ba$", "", plain).strip()
+        ptype = re.sub(r"\ba\b", "", plain, 1).strip()
         hdr.append("void pf%d(%s);" % (k, plain))
         decls.append({"decl": "void pf%d(%s)" % (k, p)})
         asserts.append(("PRO_pf%d" % k, "void(%s)" % cside(ptype), "parameter:" + ptxt.split(" +")[0].replace("{T}", "T")))
